@@ -7,8 +7,8 @@ from .. import common, direct, driver, gen, impl
 from .. import framework as fw
 
 GEN_SECTIONS = ["Tables", "Regexes", "Unicode"]
-LEAVES = {'LoopScan': [], 'ComposeLoopScan': []}
-IMP = ['partitionLines']  # functions dumped as terms of the imperative embedding, run against CPython on every run
+LEAVES = {'LoopScan': [], 'ComposeLoopScan': [], 'LoopRoute': []}
+IMP = ['partitionLines', 'fromFile']  # functions dumped as terms of the imperative embedding, run against CPython on every run
 TRUSTED = [
     "Lean 4 kernel; axioms ⊆ {propext, Classical.choice, Quot.sound}",
     "translator: header recogniser, header→(instrument, difficulty) table (probed behaviourally), required tags, "
